@@ -299,3 +299,5 @@ def run(ctx):
     from . import C14
     C14.r7_no_loss(ctx, 'C15.R7', C14.GOAWAY_SLOT, floor=3)  # a GOAWAY that is due is never dropped under write back-pressure
     boundaries.check_calls(ctx, 'C15.RC', 'C15')
+    from .. import errdisc
+    errdisc.check(ctx, 'C15.RD', 'C15', 5)
